@@ -110,9 +110,9 @@ def setup(eng, ob):
     return st, args, xs, bufs, pre
 
 
-def check_ob(chk, prover, mod, ob, tsrc, track_loads=False, max_visits=8):
+def check_ob(chk, prover, mod, ob, tsrc, track_loads=False, max_visits=8, data=None):
     prop = chk.prop
-    eng = Engine(mod, max_visits=max_visits, track_loads=track_loads, event_funcs=ob.event_funcs)
+    eng = Engine(mod, max_visits=max_visits, track_loads=track_loads, event_funcs=ob.event_funcs, data=data)
     st, args, xs, bufs, pre = setup(eng, ob)
     if ob.pre:
         pre = pre + ob.pre(xs)
